@@ -1176,6 +1176,9 @@ func c38Plans(c *Ctx) []c38Plan {
 	pick := func(xs ...int) int { return xs[r.Intn(len(xs))] }
 	mk := func(i int) []c38Plan {
 		return []c38Plan{
+			{"drop-forced", 0, 1, map[string]int{"holdms": 300}},
+			{"f14-forced", 0, 1, map[string]int{"flavour": 0}},
+			{"f14-forced", 0, 1, map[string]int{"flavour": 1}},
 			{"stall", 1500 + 500*(i%2), 0, map[string]int{"mem": 64 << 10, "nmem": pick(1, 2), "l0": 1, "stall": pick(2, 3), "writers": pick(8, 12), "vlen": pick(300, 700), "nset": 10, "vt": 1024, "conflict": 1}},
 			{"close-inflight", 25, pick(6, 10), map[string]int{"mem": 256 << 10, "nmem": 2, "l0": 1, "stall": 2, "writers": pick(4, 8, 12), "nset": pick(20, 80)}},
 			{"drop", 1500, 0, map[string]int{"mem": 128 << 10, "nmem": 2, "l0": pick(1, 2), "stall": 3, "dropall": i % 2}},
@@ -1184,9 +1187,6 @@ func c38Plans(c *Ctx) []c38Plan {
 			{"streamwriter", 0, 0, map[string]int{"mem": 256 << 10, "nmem": 2, "l0": 2, "stall": 3, "swbatches": pick(10, 40)}},
 			{"close-vs-newtxn", 12, pick(2, 4), map[string]int{"mem": 256 << 10, "writers": pick(4, 8)}},
 			{"close-vs-drop", 0, pick(3, 6), map[string]int{"mem": 128 << 10, "nmem": 2, "l0": 1, "stall": 2}},
-			{"f14-forced", 0, 1, map[string]int{"flavour": 0}},
-			{"f14-forced", 0, 1, map[string]int{"flavour": 1}},
-			{"drop-forced", 0, 1, map[string]int{"holdms": 300}},
 		}
 	}
 	var out []c38Plan
@@ -1203,7 +1203,7 @@ func runC38(c *Ctx) error {
 	c.Setup("Blocking CorrC38", "run_case")
 	plans := c38Plans(c)
 	runs := make([]c38Run, len(plans))
-	par := 3
+	par := 4
 	if v := os.Getenv("VERIF_C38_PAR"); v != "" {
 		if n, err := strconv.Atoi(v); err == nil && n > 0 {
 			par = n
@@ -1223,7 +1223,7 @@ func runC38(c *Ctx) error {
 				spec.PostCloseM = 5000 // forced / near-certain schedules: Close has returned, no server goroutine is left
 			}
 			if p.name == "drop-forced" {
-				spec.DeadlineMs = 12000 // forced schedule: the dump shows the wait cycle
+				spec.DeadlineMs = 8000 // forced schedule: the dump shows the wait cycle
 			}
 			runs[i] = c38RunChild(c, i, spec, 240*time.Second)
 		}(i, p)
@@ -1402,6 +1402,7 @@ func c38EmitCases(c *Ctx, r *c38Run, sig string) {
 	emit := func(kind string, strict bool, p *c38Prog, e c38Exp, variant int) {
 		term := fmt.Sprintf("Outcome %s %s %s %s", Bool(strict), cfg, p.term(), e.term())
 		c.Case("outcome:"+kind, term, map[string]interface{}{"scenario": r.Spec.Scenario, "seed": r.Spec.Seed, "variant": variant,
+			"real_stall_seen": res.Snap.StallSeen, "real_stall_and_flushchan_full": res.Snap.BothSeen,
 			"calls": res.Calls, "prog_len": len(p.ins), "exp": fmt.Sprintf("%+v", e)})
 	}
 	if res.Snap.N > 0 {
@@ -1459,8 +1460,10 @@ func c38EmitCases(c *Ctx, r *c38Run, sig string) {
 		switch r.Spec.Scenario {
 		case "stall", "batch-subscribe", "streamwriter", "gc-flatten":
 			pre := s + m + 3
-			if r.Spec.Scenario == "stall" && res.Snap.StallSeen > 0 && okC >= pre && v < 3 {
-				acked, infl := p.stallPrefix(m, s, res.Snap.FlushFull > 0 && v > 0)
+			if r.Spec.Scenario == "stall" && okC >= pre && v < 3 {
+				// drive the model into the stalled state (the input records whether the sampled real
+				// counters showed it in this run: snap.stall_seen / snap.stall_and_full)
+				acked, infl := p.stallPrefix(m, s, v > 0)
 				e.ok = acked + infl
 				for i := 0; i < rd; i++ {
 					p.do("E_read")
